@@ -3,7 +3,7 @@ CONSTANTS
   MODE = "reduce"
   K = 2
   NF = 3
-  NG = 0
+  NG = 2
   PF = "p2s"
   TF = "t22c"
   PG = "p2s"
